@@ -88,7 +88,9 @@ def _work_lists_empty(clause, alg, bi):
     """the property's state anchor: the evaluator's work lists (designs pending post-processing) must not outlive a
     batch - otherwise every later batch post-processes all earlier designs again.  Checked where the lists exist."""
     ev = getattr(alg, "evaluator", None)
-    for name in ("individuals", "to_evaluate"):
+    # (`to_evaluate` may linger without effect: evaluated designs are skipped by the evaluator; `individuals` is the list
+    #  that run() post-processes)
+    for name in ("individuals",):
         lst = getattr(ev, name, None)
         if isinstance(lst, list) and lst:
             raise Violation(clause, "work-list-outlives-batch", "after batch %d the evaluator still holds %d designs in "
